@@ -194,22 +194,25 @@ package mpegts
 //@   ensures len(ghostSeq(h264p.tsframeWriter, "frames")) == old(len(ghostSeq(h264p.tsframeWriter, "frames"))) + iteInt(frame.Payload[0]&0x1f >= 7 && frame.Payload[0]&0x1f <= 9, 0, 1)
 // audio: PID 257, stream id 0xc0, DTS = PTS = the presentation time in 90 kHz ticks, ADTS header for exactly this
 // payload length; a packetiser whose AudioSpecificConfig could not be decoded must not take the converter down
-//@ extern func (asc *aac.AudioSpecificConfig) ToAdtsHeader(payloadSize int) (h aac.ADTSHeader)
+// assumed frame of the decoder (its own contracts are in package aac): it writes its receiver only
+//@ extern func (asc *aac.AudioSpecificConfig) Decode(config []byte) (err error)
 //@   requires asc != nil
-//@   modifies
+//@   modifies *asc
 //@ func (ap *aacPacketizer) prepareAsc() (err error)
-//@   trusted
-//@   requires ap != nil
+//@   requires ap != nil && ap.meta != nil
 //@   modifies ap.audioSps
 //@   ensures err == nil ==> ap.audioSps != nil
 // the constructor hands out a real packetiser only with a decoded AudioSpecificConfig (otherwise audio is not converted)
 //@ func NewAacPacketizer(meta *codec.AudioMeta, tsframeWriter FrameWriter) (p Packetizer)
+//@   requires meta != nil
 //@   modifies
 //@   ensures typeIs(p, "*aacPacketizer") ==> p.(*aacPacketizer) != nil && p.(*aacPacketizer).audioSps != nil && p.(*aacPacketizer).tsframeWriter == tsframeWriter
 //@   ensures typeIs(p, "*aacPacketizer") || typeIs(p, "emptyPacketizer")
 //@ func (ap *aacPacketizer) Packetize(frame *codec.Frame) (err error)
-//@   requires ap != nil && ap.audioSps != nil && ap.tsframeWriter != nil && frame != nil && timeOK(frame.Pts)
+//@   requires ap != nil && ap.audioSps != nil && ap.tsframeWriter != nil && frame != nil && timeOK(frame.Pts) && len(frame.Payload) <= 8184
 //@   modifies ghostSeq(ap.tsframeWriter, "frames")
 //@   local tsframe *Frame
 //@   assert[call:WriteMpegtsFrame] tsframe != nil && tsframe.Pid == 257 && tsframe.StreamID == 0xc0 && tsframe.Dts == to90k(frame.Pts) && tsframe.Pts == to90k(frame.Pts) && sameSlice(tsframe.Payload, frame.Payload) && len(tsframe.Header) == 7
+// the 7 header bytes are a well-formed ADTS header whose frame length is header + this payload (lengths chain)
+//@   assert[call:WriteMpegtsFrame] tsframe.Header[0] == 0xff && tsframe.Header[1] == 0xf1 && tsframe.Header[2]&2 == 0 && (int(tsframe.Header[3]&3)<<11 | int(tsframe.Header[4])<<3 | int(tsframe.Header[5]>>5)) == len(frame.Payload) + 7
 //@   ensures len(ghostSeq(ap.tsframeWriter, "frames")) <= old(len(ghostSeq(ap.tsframeWriter, "frames"))) + 1
